@@ -275,6 +275,57 @@ def focus_for(prop):
             'C16': stream_downloads}.get(prop)
 
 
+def fixed_scenarios(prop, rng):
+    """Scenario classes whose detection must not rest on the luck of the random generator: they run first in
+    every exploration (the schedule seeds still vary with VERIF_SEED)."""
+    if prop not in ('C04', 'C05', 'C07', 'C08', 'C18'):
+        return []
+    out = []
+
+    def base(transfers, **cfg):
+        c = {'multipart_threshold': 4, 'multipart_chunksize': 3, 'max_request_concurrency': 1,
+             'max_submission_concurrency': 1, 'max_request_queue_size': 4, 'max_submission_queue_size': 3,
+             'max_io_queue_size': 2, 'io_chunksize': 4, 'num_download_attempts': 2,
+             'max_in_memory_upload_chunks': 3, 'max_in_memory_download_chunks': 2}
+        c.update(cfg)
+        return {'cfg': c, 'transfers': transfers, 'faults': [], 'cancel': None, 'mode': 'sticky',
+                'sched_seed': rng.randrange(1 << 30), 'fresh_after': False, 'fresh_nonseekable': False,
+                'mark_failed_after_done': False}
+
+    def up(size):
+        return {'kind': 'upload', 'size': size, 'source': 'seekable', 'rewinds': 0, 'sign_reads': False,
+                'subscribers': [{'id': 0, 'reentrant': []}]}
+
+    def down(size, dest):
+        return {'kind': 'download', 'size': size, 'dest': dest, 'subscribers': [{'id': 0, 'reentrant': []}]}
+
+    # Ctrl-C while shutdown() / the with-block exit waits, with work still queued behind a single request thread
+    for how in ('shutdown', 'with'):
+        for nth in (0, 1):
+            for mode in ('sticky', 'uniform', 'stall'):
+                for transfers in ([up(13)], [down(11, 'path'), up(10)], [down(13, 'nonseekable')]):
+                    sc = base([dict(t) for t in transfers])
+                    sc['cancel'] = {'kind': 'interrupt-exit', 'how': how, 'nth_wait': nth}
+                    sc['mode'] = mode
+                    if mode == 'stall':
+                        sc['stall'] = {'class': 'req-end', 'nth': rng.choice([0, 1, 2]), 'len': rng.choice([40, 100])}
+                    out.append(sc)
+    # a part dies with a BaseException that is not an Exception (SystemExit / KeyboardInterrupt inside a worker)
+    # while another part of the same upload is still on the wire: the pool keeps it on the part's future
+    for op, kind in (('upload_part', 'upload'), ('upload_part_copy', 'copy')):
+        for nth in (0, 1):
+            for when in ('before', 'after'):
+                for mode in ('stall', 'uniform', 'sticky'):
+                    t = up(13) if kind == 'upload' else {'kind': 'copy', 'size': 13, 'subscribers': [{'id': 0, 'reentrant': []}]}
+                    sc = base([t], max_request_concurrency=2)
+                    sc['faults'] = [{'site': 'req', 'op': op, 'nth': nth, 'when': when, 'exc_kind': 'base'}]
+                    sc['mode'] = mode
+                    if mode == 'stall':
+                        sc['stall'] = {'class': 'req-end', 'nth': rng.choice([1, 2, 3]), 'len': rng.choice([100, 400])}
+                    out.append(sc)
+    return out
+
+
 def _worker(args):
     prop, seed, start, count = args
     import explore
@@ -282,9 +333,16 @@ def _worker(args):
     rng = rng_for(seed, 'explore', prop, start)
     focus = focus_for(prop)
     out = {'evaluations': 0, 'nontrivial': 0, 'violations': [], 'dist': {}, 'sample': None}
+    fixed = fixed_scenarios(prop, rng) if start == 0 else []
     for i in range(count):
-        sc = explore.gen_scenario(rng, focus if (focus and rng.random() < 0.7) else None)
-        if rng.random() < SERIAL_SHARE.get(prop, 0.12):
+        if i < len(fixed):
+            sc = fixed[i]
+            out['dist']['fixed-scenario'] = out['dist'].get('fixed-scenario', 0) + 1
+        else:
+            sc = explore.gen_scenario(rng, focus if (focus and rng.random() < 0.7) else None)
+        if i < len(fixed):
+            pass
+        elif rng.random() < SERIAL_SHARE.get(prop, 0.12):
             explore.make_serial(sc, rng)
         elif [f for f in sc['faults'] if f.get('op') != 'abort_multipart_upload'] and rng.random() < 0.08:
             # a BaseException that is not an Exception (SystemExit from a callback, an interrupt re-raised by a
